@@ -44,6 +44,9 @@ DispNext == steps < MaxSteps /\
         ((\E i \in 1..Len(sb) : sb[i].r = r /\ Len(sb[i].fs) = Len(cs)) /\ PeerSuback(r, cs))
   \/ \E r \in 1..nreq : PeerUnsuback(r)
   \/ \E t \in {AB, A, <<"sport">>, <<"c">>}, q \in 0..1 : PeerPublish(t, q, 11, "x")
+  \* messages with the RETAIN flag, with and without payload (what a broker sends for a retained message, or forwards when
+  \* one is cleared), and an empty payload without the flag: messages like any others for the callbacks
+  \/ \E q \in 0..1, m \in {"Rx", "R", ""} : PeerPublish(AB, q, 11, m)
   \/ \E t \in {AB, <<"sport">>} : PeerPublish2(t, 12, "y", FALSE) \/ PeerPublish2(t, 12, "z", TRUE)
   \/ PeerPubrel(12)
 DispSpec == Init /\ [][DispNext]_vars
@@ -56,6 +59,6 @@ TreeMut == \/ (nreq < MaxReq /\ \E fs \in {<<A>>, <<AB>>, <<A, AB>>, <<AH>>} : A
            \/ \E r \in 1..nreq, cs \in {<<0>>, <<0, 1>>} :
                  ((\E i \in 1..Len(sb) : sb[i].r = r /\ Len(sb[i].fs) = Len(cs)) /\ PeerSuback(r, cs))
            \/ \E r \in 1..nreq : PeerUnsuback(r)
-TreeLastNext == steps < MaxSteps /\ IF steps < MaxSteps - 1 THEN TreeMut ELSE \E t \in {A, AB} : PeerPublish(t, 0, 11, "x")
+TreeLastNext == steps < MaxSteps /\ IF steps < MaxSteps - 1 THEN TreeMut ELSE \E t \in {A, AB}, m \in {"x", "R"} : PeerPublish(t, 0, 11, m)
 TreeLastSpec == Init /\ [][TreeLastNext]_vars
 =============================================================================
